@@ -291,6 +291,8 @@ def single_edits(lines: list, splice_from: list[list] | None = None, fields: boo
             d, r, fr = lines[i]
             for k, g in enumerate(field_mutations(fr)):
                 yield f"mut@{i}.{k}", i, lines[:i] + [(d, r, g)] + lines[i + 1 :]
+    if fields:
+        yield from role_claims(lines)
     for si, other in enumerate(splice_from or []):
         dig = digest(other)
         for i in range(0, n + 1):
@@ -315,6 +317,30 @@ def single_edits(lines: list, splice_from: list[list] | None = None, fields: boo
             # (packets that carry device ids inside the payload would name OUR devices: leave those out of the clone)
             seg = [neighbour(x) for x in lines[max(0, i - 20) : i + 20] if x[2].split()[-3] not in ("000C", "1FC9", "0418", "0016", "1FD4")]
             yield f"clone@{i}", i, lines[:i] + restamp(seg, lines, i) + lines[i:]
+
+
+def role_claims(lines: list):
+    """First claims: just before a device is first heard (as a sender), the history's controller tells the gateway (RP|000C) that
+    the device has a given role - every role of ROLES_000C, for a zone of its own (07) or the role's fixed index: each device class
+    of the history gets to be sensor / actuator / valve / relay of a zone, the hot water or the heating appliance."""
+    ctl = next((x for _d, _r, fr in lines for x in fr.split()[2:5] if x[:3] == "01:"), None)
+    if ctl is None:
+        return
+    seen: set = set()
+    for i, (d, r, fr) in enumerate(lines):
+        src = fr.split()[2]
+        if src in seen or src[:2] in ("01", "18", "63", "--"):
+            continue
+        seen.add(src)
+        t, n = src.split(":")
+        hx = f"{(int(t) << 18) | int(n):06X}"
+        # (before it is first MENTIONED: as a sender, an addressee, or by id inside a payload - e.g. the controller's own RP|000C)
+        i = next(k for k, (_d, _r, g) in enumerate(lines) if src in g or hx in g.split()[-1])
+        d, r = lines[i][0], lines[i][1]
+        for role in ROLES_000C:
+            idx = {"0D": "00", "0E": "00", "0F": "00"}.get(role, "07")
+            g = f"RP --- {ctl} 18:000730 --:------ 000C 006 {idx}{role}00{hx}"
+            yield f"claim@{i}.{role}.{t}", i + 1, lines[:i] + restamp([(d, r, g)], lines, i) + lines[i:]
 
 
 def restamp(seg: list, lines: list, i: int) -> list:
